@@ -90,6 +90,10 @@ def _oid(r):
     return [first, second] + rest
 
 
+def _v(it):
+    return core.unhx(it["v"]) * it.get("rep", 1)
+
+
 def gen_item(r):
     t = r.choice(TYPES)
     it = dict(type=t, fseed=r.getrandbits(32), mv=r.random() < 0.4)
@@ -126,6 +130,16 @@ def gen_item(r):
                                "extend", "dup", "splice", "empty", "inc_byte",
                                "zero_fill", "nest"]))
     it["faults"] = kinds
+    if t in ("octet", "sequence", "constructed", "bitstring") and \
+            r.random() < 0.0006:
+        # a body that needs a 3- / 4-octet length (one byte repeated, so the
+        # program stays small); delivered intact
+        it["v"] = core.hx(bytes([r.randrange(256)]))
+        it["rep"] = r.choice([(1 << 16) + 1, (1 << 24) - 1, 1 << 24,
+                              (1 << 24) + 1])
+        it["unused"] = 0
+        it["faults"] = []
+        it["tail"] = ""
     return it
 
 
@@ -145,13 +159,13 @@ def encode_item(lder, it):
     if t == "oid":
         return lder.encode_oid(*it["v"])
     if t == "bitstring":
-        return lder.encode_bitstring(core.unhx(it["v"]), it["unused"])
+        return lder.encode_bitstring(_v(it), it["unused"])
     if t == "octet":
-        return lder.encode_octet_string(core.unhx(it["v"]))
+        return lder.encode_octet_string(_v(it))
     if t == "sequence":
-        return lder.encode_sequence(core.unhx(it["v"]))
+        return lder.encode_sequence(_v(it))
     if t == "constructed":
-        return lder.encode_constructed(it["tag"], core.unhx(it["v"]))
+        return lder.encode_constructed(it["tag"], _v(it))
     raise ValueError(t)
 
 
@@ -166,13 +180,13 @@ def model_encode(it):
     if t == "oid":
         return mder.enc_oid(it["v"])
     if t == "bitstring":
-        return mder.enc_bits(core.unhx(it["v"]), it["unused"])
+        return mder.enc_bits(_v(it), it["unused"])
     if t == "octet":
-        return mder.enc_octets(core.unhx(it["v"]))
+        return mder.enc_octets(_v(it))
     if t == "sequence":
-        return mder.tlv(0x30, core.unhx(it["v"]))
+        return mder.tlv(0x30, _v(it))
     if t == "constructed":
-        return mder.tlv(0xA0 + it["tag"], core.unhx(it["v"]))
+        return mder.tlv(0xA0 + it["tag"], _v(it))
 
 
 def decode(lder, it, data):
@@ -227,13 +241,14 @@ def expected_value(it):
         return ("num", it["v"])
     if t == "oid":
         return ("oid", list(it["v"]))
+    v = it["v"] if "rep" not in it else _v(it).hex()
     if t == "bitstring":
-        return ("bits", it["v"], it["unused"])
+        return ("bits", v, it["unused"])
     if t == "octet":
-        return ("octet", it["v"])
+        return ("octet", v)
     if t == "sequence":
-        return ("seq", it["v"])
-    return ("ctx", it["tag"], it["v"])
+        return ("seq", v)
+    return ("ctx", it["tag"], v)
 
 
 def execute(prog):
